@@ -306,6 +306,32 @@ def write_csv(path, case, origins):
         f.write("\n".join(lines) + "\n")
 
 
+_USER = {}
+
+
+def UserCatalog():
+    """a user's catalog class (the repo's own tests use such mock catalogs): filter / filter_spatial / apply_mct hand back a NEW
+    catalog and leave the object itself alone; it has a length. CatalogForecast.__next__ uses what the calls return."""
+    if "cls" not in _USER:
+        from csep.core.catalogs import CSEPCatalog
+
+        class UserCatalog(CSEPCatalog):
+            def __len__(self):
+                return self.event_count
+
+            def filter(self, statements=None, in_place=True):
+                return super().filter(statements, in_place=False)
+
+            def filter_spatial(self, region=None, update_stats=False, in_place=True):
+                return super().filter_spatial(region, update_stats=update_stats, in_place=False)
+
+            def apply_mct(self, m_main, event_epoch, mc=2.5):
+                import copy
+                return CSEPCatalog.apply_mct(copy.deepcopy(self), m_main, event_epoch, mc)
+        _USER["cls"] = UserCatalog
+    return _USER["cls"]
+
+
 def make_catalogs(case, origins, bound_region, filters):
     """the in-memory catalogs of a case (list / custom loader / generator sources) as the user would hand them over"""
     from csep.core.catalogs import CSEPCatalog
@@ -321,10 +347,20 @@ def make_catalogs(case, origins, bound_region, filters):
     if bound_region is not None:
         kw["region"] = bound_region
 
+    # the user subclass is used where the unchanged tree supports it: histories of passes / counts / rates / reads on catalogs that
+    # are not bound to a foreign region. (The catalog tests bin the catalogs of their own pass on the catalogs' region, which only the
+    # in-place `cat.region = self.region` of get_expected_rates sets on stored objects: AWAITING_DECISION class, left out.)
+    use_sub = bool(case.get("user_subclass")) and not case.get("cat_region") and not any(o in ALL_TESTS for o in case.get("ops", []))
+    cls = UserCatalog() if use_sub else CSEPCatalog
+    if use_sub and "region" not in kw:
+        # catalogs whose filters hand back NEW objects never get the forecast's region assigned in place by get_expected_rates:
+        # their owner binds the region himself (an unbound catalog in a catalog test is the AWAITING_DECISION class)
+        kw["region"] = make_region(case["nx"], case["ny"])[0]
+
     def one(ci):
         r = row_ci(case, ci)
-        return CSEPCatalog(data=[event_row(case, r, ei, ev, origins) for ei, ev in enumerate(case["cats"][ci])],
-                           catalog_id=ids[ci], **kw)
+        return cls(data=[event_row(case, r, ei, ev, origins) for ei, ev in enumerate(case["cats"][ci])],
+                   catalog_id=ids[ci], **kw)
     if case.get("sameobj"):
         c = one(0)
         return [c] * len(case["cats"])
@@ -412,6 +448,13 @@ def build_forecast(case, tmpdir, region=None, cats=None):
         else:
             f = CF(catalogs=catalogs, loader=loader, filename=filename, store=store, **k)
         if later:
+            if case.get("reject_first"):
+                # (i) STATE AFTER A CAUGHT EXCEPTION: without a region the rates cannot be computed — the unchanged code rejects the
+                # request before it touches the catalogs; the caller catches the exception, assigns the region and goes on
+                try:
+                    f.get_expected_rates()
+                except Exception:
+                    pass
             f.region = reg
         return f
     if src in ("list", "list-ncat"):
@@ -524,6 +567,27 @@ class Hist:
 
     def fail(self, msg):
         self.fails.append(self.label + msg)
+
+    def replace_by_image(self, form, k):
+        """(h) COPIES BEFORE USE: the forecast is replaced by an image of itself; what the history shows from here on must be what
+        the original would have shown. A form the tree cannot produce for the present state of the object (a live generator cannot be
+        deep-copied or pickled) is skipped and counted."""
+        import copy
+        import pickle
+        try:
+            if form == "copy":
+                img = copy.copy(self.fore)
+            elif form == "deepcopy":
+                img = copy.deepcopy(self.fore)
+            else:
+                img = pickle.loads(pickle.dumps(self.fore))
+        except Exception as e:
+            self.run.count(f"image:{form} not available for this state ({type(e).__name__})")
+            return
+        self.fore = img
+        if form != "copy":
+            self.first_rates = None          # the image has its own expected-rates object (its values are still compared)
+        self.run.count(f"image:forecast replaced by its {form} image before op")
 
     def scribble(self, ret):
         """ALIASING OF RETURNED OBJECTS: what a call hands out belongs to the caller. Overwrite it in place (sorted, zeroed, a
@@ -771,8 +835,22 @@ class Hist:
 def run_history(run, case, tmpdir):
     """execute the operations on the real forecast; returns list of canonical outputs and the oracle's complaints"""
     h = Hist(run, case, tmpdir)
+    plan = case.get("copy_plan")
     for k, op in enumerate(case["ops"]):
-        if not h.step(k, op):
+        if plan:
+            import random as _random
+            r = _random.Random(plan["seed"] + 7919 * k)
+            if r.random() < plan["p"]:
+                h.replace_by_image(r.choice(["copy", "deepcopy", "pickle"]), k)
+        if case.get("numstate") and op not in ALL_TESTS:
+            import decimal as _decimal
+            with numpy.errstate(divide="raise", invalid="raise", over="raise"), _decimal.localcontext() as ctx:
+                ctx.prec = 3
+                ok = h.step(k, op)
+            run.count("numeric-state:errstate-raise+decimal-prec-3")
+        else:
+            ok = h.step(k, op)
+        if not ok:
             break
     h.finish()
     return h.outs, h.fails
@@ -1291,6 +1369,17 @@ def gen_world(rng, src, af, sp):
         w["region_later"] = True       # constructed WITHOUT region=, the region is assigned afterwards
     if src in ("list", "list-ncat", "gen-store", "loader-store", "loader-nostore") and rng.random() < 0.3:
         w["ctor_positional"] = True    # CALL FORMS: CatalogForecast(...) with every argument positionally, in signature order
+    # round 7 classes
+    if rng.random() < 0.3:
+        # (h) COPIES BEFORE USE: in front of some operations the forecast object is replaced by copy.copy / copy.deepcopy / a pickle
+        # image of itself (before the first pass, between passes, after evaluations); the history goes on with the image
+        w["copy_plan"] = dict(seed=rng.randrange(2 ** 32), p=rng.choice([0.2, 0.4, 0.7]))
+    if src in ("list", "list-ncat", "gen-store", "loader-store", "loader-nostore") and rng.random() < 0.15:
+        w["user_subclass"] = True      # (j) catalogs of a user subclass whose filter / filter_spatial / apply_mct return a NEW catalog
+    if rng.random() < 0.2:
+        w["numstate"] = True           # (k) passes, counts, rates and reads run under numpy.errstate(raise) and a 3-digit decimal context
+    if w.get("region_later") and rng.random() < 0.5:
+        w["reject_first"] = True       # (i) the rates are requested while the forecast has no region yet (rejected), then it gets one
     return w
 
 
